@@ -464,6 +464,9 @@ func judgeConc(c ConcCase, r *concRun, o *Obs) error {
 		}
 		r.appClosed = true // from here on only the lenient (prefix) wire rules apply
 	}
+	if dlDuring := r.gc.DeadlineDuringWrite(); dlDuring != "" {
+		return fmt.Errorf("%s: that frame is no longer written under the deadline last given to SetWriteDeadline (on a net.Conn the pending Write now fails at the foreign deadline and poisons the connection)", dlDuring)
+	}
 	if overlap {
 		return errors.New("two goroutines were inside the transport's Write at the same time: frame writes are not serialised")
 	}
